@@ -1,8 +1,150 @@
 /-
-  Helper lemmas for C15 (state machine vs. recursive-descent recogniser).
+  Helper lemmas for C15, part 1: what the state machine of `Lang/PathParser.lean` does on
+  whitespace, on runs of plain characters, and on the body of a slice.
 -/
 import BufrModel.Lang.PathParser
 import BufrModel.Spec.PathGrammar
 namespace Bufr.PathLang
+open Spec
+
+/-! ### character classes -/
+
+theorem isSpecial_iff (c : Char) :
+    isSpecial c = true ↔ c = '@' ∨ c = '[' ∨ c = ']' ∨ c = ':' ∨ c = '/' ∨ c = '.' ∨ c = '>' := by
+  simp [isSpecial, or_assoc]
+
+theorem isSep_iff (c : Char) : isSep c = true ↔ c = '/' ∨ c = '.' ∨ c = '>' := by
+  simp [isSep, or_assoc]
+
+theorem isSep_special {c : Char} (h : isSep c = true) : isSpecial c = true := by
+  rw [isSep_iff] at h; rw [isSpecial_iff]
+  rcases h with h | h | h <;> simp [h]
+
+theorem isSep_not_ws {c : Char} (h : isSep c = true) : isWs c = false := by
+  rw [isSep_iff] at h; rcases h with h | h | h <;> subst h <;> decide
+
+/-- a character that is neither whitespace nor one of `@[]:/.>` -/
+def Plain (c : Char) : Prop := isSpecial c = false ∧ isWs c = false
+
+/-! ### running the machine -/
+
+/-- the main loop followed by the end-of-input handling -/
+def runFin (s : PS) (cs : List Char) : PR Path :=
+  match run s cs with
+  | .error e => .error e
+  | .ok s' => finish s'
+
+@[simp] theorem runFin_nil (s : PS) : runFin s [] = finish s := rfl
+
+theorem runFin_cons (s : PS) (c : Char) (cs : List Char) :
+    runFin s (c :: cs) = match step s c with
+      | .error e => .error e
+      | .ok s' => runFin s' cs := by
+  simp only [runFin, run]
+  cases step s c <;> rfl
+
+theorem run_append (s : PS) (a b : List Char) :
+    run s (a ++ b) = match run s a with
+      | .error e => .error e
+      | .ok s' => run s' b := by
+  induction a generalizing s with
+  | nil => rfl
+  | cons c a ih =>
+    simp only [List.cons_append, run]
+    cases step s c with
+    | error e => rfl
+    | ok s' => exact ih s'
+
+theorem runFin_append (s : PS) (a b : List Char) :
+    runFin s (a ++ b) = match run s a with
+      | .error e => .error e
+      | .ok s' => runFin s' b := by
+  simp only [runFin, run_append]
+  cases run s a <;> rfl
+
+theorem step_ws (s : PS) (c : Char) (h : isWs c = true) : step s c = .ok s := by
+  simp [step, h]
+
+/-- whitespace is ignored by the main loop -/
+theorem run_filter_ws (s : PS) (cs : List Char) :
+    run s cs = run s (cs.filter (fun c => !isWs c)) := by
+  induction cs generalizing s with
+  | nil => rfl
+  | cons c cs ih =>
+    by_cases h : isWs c = true
+    · simp only [List.filter_cons, h, Bool.not_true, Bool.false_eq_true, if_false, run, step_ws s c h]
+      exact ih s
+    · simp only [List.filter_cons, h, Bool.not_false, if_true, run]
+      cases step s c with
+      | error e => rfl
+      | ok s' => exact ih s'
+
+theorem parse_eq (input : List Char) :
+    parse input = match input.filter (fun c => !isWs c) with
+      | [] => .error .path
+      | c :: cs => if firstOk c = false then .error .path else runFin {} (c :: cs) := by
+  unfold parse
+  have h := run_filter_ws {} input
+  cases hf : input.filter (fun c => !isWs c) with
+  | nil => rfl
+  | cons c cs =>
+    simp only [runFin]
+    rw [hf] at h
+    rw [h]
+    cases firstOk c <;> rfl
+
+/-! ### states -/
+
+/-- the states in which ordinary characters accumulate in `token` -/
+def accSt : PState → Bool
+  | .startId | .subsetSlice0 | .subsetSliceX | .slice0 | .sliceX => true
+  | _ => false
+
+def inSlice : PState → Bool
+  | .slice0 | .sliceX | .subsetSlice0 | .subsetSliceX => true
+  | _ => false
+
+def is0 : PState → Bool
+  | .slice0 | .subsetSlice0 => true
+  | _ => false
+
+def toX : PState → PState
+  | .slice0 => .sliceX
+  | .subsetSlice0 => .subsetSliceX
+  | s => s
+
+def toStop : PState → PState
+  | .slice0 | .sliceX => .stopSlice
+  | _ => .stopSubsetSlice
+
+theorem step_plain (s : PS) (c : Char) (hc : Plain c) (hs : accSt s.st = true) :
+    step s c = .ok { s with token := s.token ++ [c] } := by
+  obtain ⟨h1, h2⟩ := hc
+  have h3 : ¬ (c = '@' ∨ c = '[' ∨ c = ']' ∨ c = ':' ∨ c = '/' ∨ c = '.' ∨ c = '>') := by
+    rw [← isSpecial_iff]; simp [h1]
+  have hsep : isSep c = false := by
+    cases h : isSep c
+    · rfl
+    · rw [isSep_special h] at h1; cases h1
+  simp only [not_or] at h3
+  obtain ⟨n1, n2, n3, n4, _, _, _⟩ := h3
+  have e1 : (c == '@') = false := by simp [n1]
+  have e2 : (c == '[') = false := by simp [n2]
+  have e3 : (c == ']') = false := by simp [n3]
+  have e4 : (c == ':') = false := by simp [n4]
+  simp only [step, h2, e1, e2, e3, e4, hsep, Bool.false_eq_true, if_false, Bool.or_self]
+  cases hst : s.st <;> simp_all [accSt]
+
+theorem run_plain (w : List Char) : ∀ (s : PS) (rest : List Char), (∀ c ∈ w, Plain c) → accSt s.st = true →
+    run s (w ++ rest) = run { s with token := s.token ++ w } rest := by
+  induction w with
+  | nil => intro s rest _ _; simp
+  | cons c w ih =>
+    intro s rest hw hs
+    simp only [List.cons_append, run]
+    rw [step_plain s c (hw c (by simp)) hs]
+    simp only
+    rw [ih { s with token := s.token ++ [c] } rest (fun c hc => hw c (by simp [hc])) hs]
+    simp
 
 end Bufr.PathLang
